@@ -4,13 +4,14 @@ CONSTANTS
   Endpoints = {"event", "batch", "peer-batch", "otlp-http-traces", "otlp-http-logs", "otlp-grpc-traces", "otlp-grpc-logs", "proxy", "query"}
   CTypes = {"json", "msgpack", "protobuf", "absent", "junk"}
   Comps = {"none", "gzip", "zstd", "corrupt"}
-  Shapes = {"valid", "empty", "truncated", "subst", "wrongtop", "deep", "hugelen", "dupkeys", "nonstrkeys", "badutf8", "naninf", "exttypes"}
+  Shapes = {"valid", "empty", "truncated", "subst", "wrongtop", "deep", "hugelen", "lenbomb", "dupkeys", "nonstrkeys", "badutf8", "naninf", "exttypes"}
   Hdrs = {"nokey", "key", "odd"}
   ReqMode = "star"
   CfgSamplers = {"DeterministicSampler", "DynamicSampler", "EMADynamicSampler", "EMAThroughputSampler", "WindowedThroughputSampler", "TotalThroughputSampler", "RulesBasedSampler"}
   CondOps = {"=", "!=", ">", "<", ">=", "<=", "starts-with", "contains", "does-not-contain", "exists", "not-exists", "has-root-span", "matches", "in", "not-in"}
-  CondVals = {"absent", "str", "intlist", "nan"}
+  CondVals = {"absent", "str", "intlist"}
   CondTypes = {"absent", "string", "int", "float", "bool"}
+  RuleKinds = {"list"}
   Faithful = TRUE
 INVARIANTS TypeOK OnlyListed
 ACTION_CONSTRAINT Dump
